@@ -28,7 +28,7 @@ RULE = ("cases: configurations (kind, shape, order supplied, unit, optional part
         "cell-array comparison; non-trivial = distinct configurations with >= 2 wavelengths whose supplied order or read order requires a reversal, or with an optional part absent")
 ASSUMPTIONS = ["values are finite and positive", "astropy.io.fits round-trips float64 arrays exactly"]
 REQUIRED_CLASSES = ['sed', 'cube', 'convolved', 'supplied-wav-ascending', 'supplied-wav-descending', 'read-order-nu', 'read-order-wav', 'no-apertures', 'no-uncertainties',
-                    'memmap-on', 'memmap-off', 'get_sed', 'unit-erg/cm2/s', 'unit-erg/s', 'unit-Jy', 'writer-vs-fits', 'fits-vs-reader', 'written-twice', 'other-family-unit-both-orders', 'cube-nu-consistent']
+                    'memmap-on', 'memmap-off', 'get_sed', 'unit-erg/cm2/s', 'unit-erg/s', 'unit-Jy', 'writer-vs-fits', 'fits-vs-reader', 'written-twice', 'other-family-unit-both-orders', 'cube-nu-consistent', 'earlier-extracted-seds-rechecked', 'file-overwritten-then-read']
 TIMEOUT = {'quick': 300, 'thorough': 1800}
 
 UNITS = ['mJy', 'Jy', 'erg / (cm2 s)', 'erg / s']
@@ -226,6 +226,34 @@ def _sed(ctx, case, rec, d, key):
         if bad:
             _viol(rec, 'sed-roundtrip|%s|%s|%s' % (path, sup, order), dict(case, order=order), {'problem': bad})
             return
+    # the same file NAME overwritten with other values by the library writer: a later read must see the new contents
+    if path == 'lib-lib':
+        s2 = SED()
+        s2.name = 'model_y'
+        s2.distance = 1.0 * u.kpc
+        s2.wav = wav * u.micron
+        s2.nu = s2.wav.to(u.Hz, equivalencies=u.spectral())
+        if ap is not None:
+            s2.apertures = ap * u.au
+        s2.flux = (cells * 3.0 + 1.0) * uq
+        s2.error = err * 2.0 * uq
+        _, e0 = _try(rec, 'sed-write', case, lambda: s2.write(fn, overwrite=True))
+        r2, e1 = _try(rec, 'sed-read', case, lambda: SED.read(fn, unit_flux=uq, order='nu'))
+        rec.trans(2)
+        rec.ev()
+        rec.cls('file-overwritten-then-read')
+        if e0 or e1:
+            return
+        rw2 = r2.wav.to(u.micron).value
+        ok2 = r2.name == 'model_y'
+        for j in range(n_wav):
+            k2 = int(np.argmin(np.abs(wav - rw2[j])))
+            ok2 = ok2 and _close(r2.flux.to(uq).value[:, j], cells[:, k2] * 3.0 + 1.0)
+        if not ok2:
+            _viol(rec, 'sed-read|stale-after-overwrite', case, {'problem': 'after the file was overwritten with other values, reading it returns something else than the new contents', 'name_read': r2.name})
+            return
+        # restore the first contents for the reads below
+        _try(rec, 'sed-write', case, lambda: s.write(fn, overwrite=True))
     # the same pair of reads with a flux unit of another family (conversion uses the frequencies)
     other = u.erg / u.cm ** 2 / u.s if uq.is_equivalent(u.Jy) else u.mJy
     ra, e1 = _try(rec, 'sed-read', case, lambda: SED.read(fn, unit_flux=other, order='nu'))
@@ -351,6 +379,7 @@ def _cube(ctx, case, rec, d, key):
                 _viol(rec, 'cube-roundtrip|%s|%s|%s' % (path, sup, order), dict(case, order=order, memmap=memmap), {'problem': bad})
                 return
             # one model out of the cube
+            extracted = []
             for mi, nm in enumerate(names):
                 s, e = _try(rec, 'get_sed', dict(case, unc=has_unc), lambda: r.get_sed(nm))
                 rec.ev()
@@ -369,6 +398,14 @@ def _cube(ctx, case, rec, d, key):
                 if not okm:
                     _viol(rec, 'get_sed|cells', dict(case, order=order, memmap=memmap, model=nm), {'problem': 'SED extracted from the cube is not the one put in'})
                     return
+                extracted.append((s, nm, np.array(sf, copy=True)))
+            # the SEDs extracted first must still be themselves after the others were extracted
+            for s_old, nm_old, sf_old in extracted:
+                if s_old.name != nm_old or not _close(np.asarray(s_old.flux.to(uq).value, float), sf_old):
+                    _viol(rec, 'get_sed|earlier-sed-changed', dict(case, order=order, memmap=memmap, model=nm_old), {'problem': 'an SED extracted earlier changed when another model was extracted', 'name_now': s_old.name})
+                    return
+            if len(extracted) > 1:
+                rec.cls('earlier-extracted-seds-rechecked')
     a, b = reads[(False, 'nu')], reads[(False, 'wav')]
     if not (_close(a.wav.value, b.wav.value[::-1]) and _close(np.asarray(a.val.value), np.asarray(b.val.value)[:, :, ::-1])
             and (a.unc is None or _close(np.asarray(a.unc.value), np.asarray(b.unc.value)[:, :, ::-1]))):
